@@ -155,7 +155,8 @@ def fingerprint(e, depth=2):
 class PathOutcome:
     """What a harness returns at the end of one path."""
 
-    def __init__(self, props=(), inputs=None, outputs=None, kind="assert", note=None):
+    def __init__(self, props=(), inputs=None, outputs=None, kind="assert", note=None, prefer=()):
+        self.prefer = list(prefer)  # soft preferences for counterexample models (e.g. distinct residues)
         self.props = list(props)  # [(name, z3 Bool)]
         self.inputs = inputs  # structure with Sym leaves (for concretisation)
         self.outputs = outputs  # structure with Sym leaves (expected real outputs)
@@ -792,9 +793,14 @@ def _free_consts(e, acc, seen=None):
             todo.extend(t.children())
 
 
-def nice_model(ctx, extra, inputs):
+def nice_model(ctx, extra, inputs, prefer=()):
     """A model of path-condition AND extra in which every free Real input is a small
-    dyadic rational (exactly representable as float32), if one exists; else any model."""
+    dyadic rational (exactly representable as float32), if one exists; else any model.
+    `prefer`: soft constraints tried first (dropped if unsatisfiable together)."""
+    if prefer:
+        m = nice_model(ctx, list(extra) + list(prefer), inputs)
+        if m is not None:
+            return m
     s = ctx.solver
     reals = [c for c in collect_reals(inputs).values() if z3.is_real(c)]
     for den, bound in ((1, 64), (8, 64), (64, 1024)):
